@@ -136,7 +136,13 @@ Definition ds_set_axis (r : axref) (k : kind) (labs : list label) (name : option
       if negb (List.length labs =? alen ax) then (s, Err ValueError) else
       let ax' := {| aname := aname ax; akind := cast_kind (akind ax) k; alab := labs; aattrs := aattrs ax; amem := amem ax |} in
       let s' := with_heap s (hset (heap s) id ax') in
-      match name with None => (s', Ok tt) | Some n => rename_id s' id n end
+      match name with
+      | None => (s', Ok tt)
+      | Some n =>
+          (* the name of another dimension is refused (before anything is touched) *)
+          if mem_str n (map (fun j => aname (hget (heap s) j)) (filter (fun j => negb (j =? id)) (dsax s))) then (s, Err ValueError)
+          else rename_id s' id n
+      end
   end.
 (* ds.axes[d] = Axis(...) : a new object replaces the dataset's and every variable's reference *)
 Definition ds_replace_axis (r : axref) (nx : axis) (s : dset) : dset * res unit :=
